@@ -151,8 +151,16 @@ type worker struct {
 }
 
 func (w *worker) solver(key string, toMs int) *solverProc {
-	p := w.solvers[key]
-	if p != nil && !p.broken && p.toMs == toMs {
+	mk := key
+	if strings.HasPrefix(key, "cvc5") {
+		mk = fmt.Sprintf("%s@%d", key, toMs) // cvc5's limit is fixed at launch
+	}
+	p := w.solvers[mk]
+	if p != nil && !p.broken {
+		if p.toMs != toMs {
+			p.send(fmt.Sprintf("(set-option :timeout %d)\n", toMs))
+			p.toMs = toMs
+		}
 		return p
 	}
 	if p != nil {
@@ -162,7 +170,7 @@ func (w *worker) solver(key string, toMs int) *solverProc {
 	if err != nil {
 		panic(engineError{"cannot start solver " + key + ": " + err.Error()})
 	}
-	w.solvers[key] = np
+	w.solvers[mk] = np
 	return np
 }
 
@@ -205,7 +213,11 @@ func (ex *Explorer) query(key string, toMs int, extra *Term, wantModel bool) (sa
 	ex.count(p.spec.name + ":" + r.String())
 	if p.broken {
 		// restart lazily; the new process re-syncs from 0
-		delete(ex.w.solvers, key)
+		for k, sp := range ex.w.solvers {
+			if sp == p {
+				delete(ex.w.solvers, k)
+			}
+		}
 	}
 	return r, m, why
 }
